@@ -9,11 +9,13 @@ use crate::utils::decode_variable_length;
 
 use super::{Decoded, Encoded};
 use super::{Packet, decode::decode_packet, encode::EncodeLtd, packet::Publish};
+use super::encode::var_int_len_u32;
 
 pub struct Codec {
     state: Cell<DecodeState>,
     max_in_size: Cell<u32>,
     max_out_size: Cell<u32>,
+    max_out_packet: Cell<u32>,
     min_chunk_size: Cell<u32>,
     flags: Cell<CodecFlags>,
     encoding_payload: Cell<Option<NonZeroU32>>,
@@ -44,6 +46,7 @@ impl Codec {
             state: Cell::new(DecodeState::FrameHeader),
             max_in_size: Cell::new(0),
             max_out_size: Cell::new(0),
+            max_out_packet: Cell::new(0),
             min_chunk_size: Cell::new(0),
             flags: Cell::new(CodecFlags::empty()),
             encoding_payload: Cell::new(None),
@@ -89,6 +92,7 @@ impl Codec {
     /// If max size is set to `0`, size is unlimited.
     /// By default max size is set to `0`
     pub fn set_max_outbound_size(&self, mut size: u32) {
+        self.max_out_packet.set(size);
         if size > 5 {
             // fixed header = 1, var_len(remaining.max_value()) = 4
             size -= 5;
@@ -282,6 +286,12 @@ impl Encoder for Codec {
 }
 
 impl Codec {
+    /// Whole packet (fixed header included) fits into peer's Maximum Packet Size
+    fn fits_max_packet(&self, content_size: u32) -> bool {
+        let max = self.max_out_packet.get();
+        max == 0 || content_size.saturating_add(1 + var_int_len_u32(content_size)) <= max
+    }
+
     fn encode_item(&self, mut item: Encoded, dst: &mut BytePages) -> Result<(), EncodeError> {
         // handle [MQTT 3.1.2.11.7]
         if self.flags.get().contains(CodecFlags::NO_PROBLEM_INFO) {
@@ -333,7 +343,9 @@ impl Codec {
                     Err(EncodeError::ExpectPayload)
                 } else {
                     let content_size = pkt.encoded_size(max_size);
-                    if content_size > max_size as usize {
+                    if content_size > max_size as usize
+                        || !self.fits_max_packet(content_size as u32)
+                    {
                         Err(EncodeError::OverMaxPacketSize)
                     } else {
                         pkt.encode(dst, content_size as u32)?; // safe: max_size <= u32 max value
@@ -343,7 +355,7 @@ impl Codec {
             }
             Encoded::Publish(pkt, buf) => {
                 let content_size = pkt.encoded_size(max_size) as u32;
-                if content_size > max_size {
+                if content_size > max_size || !self.fits_max_packet(content_size) {
                     return Err(EncodeError::OverMaxPacketSize);
                 }
 
@@ -383,6 +395,7 @@ impl Clone for Codec {
             state: Cell::new(DecodeState::FrameHeader),
             max_in_size: self.max_in_size.clone(),
             max_out_size: self.max_out_size.clone(),
+            max_out_packet: self.max_out_packet.clone(),
             min_chunk_size: self.min_chunk_size.clone(),
             flags: Cell::new(CodecFlags::empty()),
             encoding_payload: Cell::new(None),
